@@ -17,7 +17,8 @@ R06.3  u: satisfied => exactly 1;  d: some signature-free input leaves 0
 R06.4  s: every success checked a signature;  f (no dissatisfaction): no signature-free input leaves 0
 R06.5  composition: canonical satisfactions / dissatisfactions of accepted fragments leave non-zero / zero
 R06.6  the public cast constructors Type::cast_* give the labels type_check gives (shared with C08 R08.3)
-R06.7  the contexts admit exactly the fragments / key kinds that can execute under their script rules (shared with C12)"""
+R06.7  the contexts admit exactly the fragments / key kinds that can execute under their script rules (shared with C12)
+R06.8  the typed leaf constructors attach the labels type_check gives (shared with C05)"""
 
 import itertools
 import os
@@ -217,6 +218,10 @@ def run(chk):
     from . import c12
     chk.guard("R06.7", "context-tables", c12.check_context_tables, RuleAlias(chk, {"R12.2c": "R06.7"}, "per-context node checks "
               "admit exactly the fragments and key kinds that can execute under the context's script rules"), F)
+    # R06.8: parser, script decoder and compiler build their leaves with typed constructors that attach labels without
+    # running type_check: those labels must be the ones judged above (rule shared with C05 / C09 / C12)
+    from . import ctors
+    chk.guard("R06.8", "typed-constructors", ctors.check_typed_constructors, chk, F, "R06.8")
     chk.extra["R06_typed_fragments"] = typed
     chk.extra["R06_executions"] = runs
     chk.floor("R06.1", "well-typed fragments", typed, 800)
